@@ -37,6 +37,23 @@ CLAIMS = {
   "for all bases of small shapes and random larger ones, read-back through the real reader, and write-own-basis / continue sequences.",
   COMMON_NOTE + "Names assumed distinct and free of white space; the MPS line tokenizer under the reader is not modelled.",
   "DESIGN.md C14", "Lean 4 proof of the basis-file codec round trip + model/implementation correspondence check"),
+ "C03": ("proof",
+  "Partial by nature. Proved in Lean: soundness of the three certificate checkers (optimality, Farkas, unbounded ray), mutual exclusivity of the three "
+  "classes and uniqueness of the certified value - so the 'mathematical truth' of an LP is well defined by whichever certificate exists - and the "
+  "bound of 1 + QS_EXACT_MAX_ITER floating-point stages of the exact driver. Explored, not proved: that QSexact_solver terminates with the true "
+  "definitive status on every moderate LP (simplex, LU and pricing are not modelled): every generated LP is classified by a self-certifying "
+  "reference whose certificate passed the proved checker and the real solver's status and exact value are compared with it (exhaustive small "
+  "family, degenerate, cycling-prone, margins 2^-k and near-parallel equalities, scales 10^±e, awkward denominators, random up to 30x30).",
+  COMMON_NOTE + "Completeness is exploration with a proved oracle. UNBOUNDED is reported by the library from floating point alone.",
+  "DESIGN.md C03", "Lean 4 proofs of certificate soundness/exclusivity + exploration against a self-certifying reference"),
+ "C04": ("proof",
+  "Lean theorem certified_status_agree / certified_answers_agree: for one LP any two outcomes that each carry an accepted certificate have the "
+  "same class and the same value - for every pair of configurations, warm starts and repetitions at once, without enumerating them - and the "
+  "session-model fact that a repeated solve of an unmodified object returns the stored status. Tied to /repo by driving the library over the "
+  "product {QSexact_solver primal/dual, QSopt_primal, QSopt_dual} x 4x4 pricing rules x scaling x mpf precision x warm-start bases (incl. 50/100/150-"
+  "column LPs for partial pricing), passing every OPTIMAL/INFEASIBLE through the proved checkers and comparing all statuses and values with the "
+  "certified reference and with each other. Partial: definitiveness under every configuration is explored, not proved.",
+  COMMON_NOTE + "As C03.", "DESIGN.md C04", "Lean 4 proof of uniqueness of certified answers + configuration-product exploration"),
  "C05": ("proof",
   "Lean session state machine (basis / cached solution / factorok / status per public entry point, solver results and the flags of "
   "ILLlib_delrows as oracle answers) with the invariant, proved for ALL histories by induction, that a stored solution is either computed for the "
